@@ -172,6 +172,12 @@ func RunProperty(t *testing.T, cfg PropCfg) {
 		var trace []string
 		if cfg.PerCase != nil {
 			viol = cfg.PerCase(rt, s, ev)
+			if len(viol) > 0 {
+				_, trace = RunC15Trace(cfg.ID, s)
+			}
+			if cfg.ID == "C01" || cfg.ID == "C15" {
+				ev.Sample(map[string]interface{}{"blocks": len(s.Blocks), "txs": s.NumTxs(), "node_b": s.Nodes, "first_block": s.Blocks[:min(1, len(s.Blocks))]}, 3)
+			}
 		} else {
 			opts := lab.NodeOpts{DB: "mem"}
 			if cfg.Opts != nil {
@@ -234,7 +240,36 @@ func Replay(t *testing.T, cfgs map[string]PropCfg) {
 	}
 	ev := NewEvidence(cfg.ID, cfg.Rule)
 	if cfg.PerCase != nil {
-		t.Fatalf("replay of %s goes through its own entry point", rf.Prop)
+		var viol []Finding
+		var tr []string
+		switch rf.Prop {
+		case "C15":
+			viol, tr = RunC15(&s, nil, true)
+		case "C01":
+			opts := lab.NodeOpts{DB: "level"}
+			if len(s.Nodes) > 0 {
+				opts = s.Nodes[0]
+			}
+			viol = runC01(&s, opts, nil)
+		}
+		for _, l := range tr {
+			fmt.Println(l)
+		}
+		known := LoadedKnown()
+		bad := false
+		for _, f := range viol {
+			if known.Has(f.Sig) {
+				fmt.Printf("KNOWN-FINDING: property=%s sig=%s %s\n", f.Prop, f.Sig, f.Msg)
+				continue
+			}
+			fmt.Printf("REPLAY-VIOLATION property=%s %s\n", f.Prop, f.Msg)
+			bad = true
+		}
+		if bad {
+			t.Fatalf("replay reproduces the violation")
+		}
+		fmt.Println("REPLAY-OK: the saved case no longer violates", rf.Prop)
+		return
 	}
 	viol, w, err := RunCase(&cfg, &s, lab.NodeOpts{DB: "mem"}, ev, true)
 	if err != nil {
@@ -253,4 +288,12 @@ func Replay(t *testing.T, cfgs map[string]PropCfg) {
 		t.Fatalf("replay reproduces the violation")
 	}
 	fmt.Println("REPLAY-OK: the saved case no longer violates", rf.Prop)
+}
+
+// RunC15Trace re-runs a per-case check with tracing (for the replay file).
+func RunC15Trace(id string, s *Scenario) ([]Finding, []string) {
+	if id == "C15" {
+		return RunC15(s, nil, true)
+	}
+	return nil, nil
 }
